@@ -24,7 +24,7 @@ use simkit::net::{Datagram, Mutation, NetCfg, SimNet};
 use simkit::{chance, check, choose, ev, fault, probe, weighted};
 
 use crate::adv;
-use crate::node::{client_ip, mint_keys, Handled, Policy, PolicyModel, ServerNode};
+use crate::node::{client_ip, mint_keys, CookieState, Handled, Policy, PolicyModel, ServerNode};
 use crate::req::{self, Built, Layout, Pick, SimPick};
 use crate::wire::{self, Region, RegionMap, RespKind, T_AUTH, T_COOKIE, T_PLACEHOLDER, T_UID};
 
@@ -139,6 +139,7 @@ struct Sess {
 #[derive(Clone, Copy, Debug, PartialEq, Eq, PartialOrd, Ord)]
 enum Ev {
     Rotate(usize),
+    Restart(usize),
     Poll(usize),
     Adversary,
 }
@@ -228,7 +229,7 @@ impl World {
         check!(
             "C26",
             "c26-keyset-size",
-            v.n_keys == (s.epoch as usize).min(s.history) + 1,
+            v.n_keys == s.live.len(),
             "server {server} epoch {} history {} holds {} keys",
             s.epoch,
             s.history,
@@ -243,41 +244,9 @@ impl World {
         let epoch = self.servers[si].epoch;
         fault("key-rotate");
         ev!("rotate server={si} epoch={epoch} history={}", self.servers[si].history);
-        let ks = self.servers[si].keyset();
-        let n = self.ledger.len();
-        for owner in 0..n {
-            for rec in self.ledger[owner].iter() {
-                let got = fk::decode_cookie(&ks, &rec.bytes);
-                if owner == si {
-                    if self.servers[si].model_valid(rec.epoch) {
-                        check!(
-                            "C26",
-                            "c26-valid-cookie-does-not-decode",
-                            got.as_ref() == Some(&rec.keys),
-                            "server {si} epoch {epoch} history {}: cookie issued at epoch {} decodes to {}",
-                            self.servers[si].history,
-                            rec.epoch,
-                            if got.is_some() { "other keys" } else { "nothing" }
-                        );
-                    } else {
-                        probe("c26-rotation-beyond-history");
-                        check!(
-                            "C26",
-                            "c26-expired-cookie-decodes",
-                            got.is_none(),
-                            "server {si} epoch {epoch} history {}: cookie issued at epoch {} still decodes",
-                            self.servers[si].history,
-                            rec.epoch
-                        );
-                    }
-                } else {
-                    check!("C26", "c26-foreign-cookie-decodes", got.is_none(), "cookie of server {owner} (epoch {}) decodes under server {si}", rec.epoch);
-                }
-            }
-        }
+        self.ledger_sweep(si, "after rotation");
         // drop long-expired records
-        let h = self.servers[si].history as u64;
-        self.ledger[si].retain(|r| epoch - r.epoch <= h + 2);
+        self.ledger[si].retain(|r| epoch - r.epoch <= 11);
         if !self.tamper_done || chance("tamper.again", 0.15) {
             self.tamper_sweep(si);
         }
@@ -289,6 +258,83 @@ impl World {
                 ev!("heal client={c} server={si} epoch={epoch}");
             }
         }
+    }
+
+    /// C26: every recorded cookie against the real key set, judged by the window model
+    fn ledger_sweep(&self, si: usize, when: &str) {
+        let ks = self.servers[si].keyset();
+        let srv = &self.servers[si];
+        for owner in 0..self.ledger.len() {
+            for rec in self.ledger[owner].iter() {
+                let got = fk::decode_cookie(&ks, &rec.bytes);
+                if owner != si {
+                    check!("C26", "c26-foreign-cookie-decodes", got.is_none(), "{when}: cookie of server {owner} (epoch {}) decodes under server {si}", rec.epoch);
+                    continue;
+                }
+                match srv.model_state(rec.epoch) {
+                    CookieState::Valid => check!(
+                        "C26",
+                        "c26-valid-cookie-does-not-decode",
+                        got.as_ref() == Some(&rec.keys),
+                        "{when}: server {si} epoch {} history {} restarts {} keys {:?}: cookie issued at epoch {} decodes to {}",
+                        srv.epoch,
+                        srv.history,
+                        srv.restarts,
+                        srv.live,
+                        rec.epoch,
+                        if got.is_some() { "other keys" } else { "nothing" }
+                    ),
+                    CookieState::Invalid => {
+                        probe("c26-rotation-beyond-history");
+                        check!(
+                            "C26",
+                            "c26-expired-cookie-decodes",
+                            got.is_none(),
+                            "{when}: server {si} epoch {} history {} restarts {} keys {:?}: cookie issued at epoch {} still decodes",
+                            srv.epoch,
+                            srv.history,
+                            srv.restarts,
+                            srv.live,
+                            rec.epoch
+                        );
+                    }
+                    CookieState::Either => {
+                        probe("c26-stale-key-lingers-after-history-shrink");
+                        // whatever it does, it must not yield other keys
+                        check!("C26", "c26-cookie-decodes-to-other-keys", got.is_none() || got.as_ref() == Some(&rec.keys), "{when}: lingering cookie of epoch {} decodes to other keys", rec.epoch);
+                    }
+                }
+            }
+        }
+    }
+
+    /// daemon restart of server `si`: store -> load under a possibly different stale-key-count
+    fn restart(&mut self, si: usize) {
+        let old = self.servers[si].history;
+        let new = [old, 0, 1, 2, 5, 8][choose("restart.history", 6) as usize];
+        if !self.servers[si].restart(new) {
+            simkit::abort(format!("server {si}: stored key set does not load"));
+            return;
+        }
+        fault("server-restart");
+        if new < old {
+            fault("history-shrink");
+        } else if new > old {
+            fault("history-grow");
+        }
+        ev!("restart server={si} epoch={} history {old} -> {new} keys={:?}", self.servers[si].epoch, self.servers[si].live);
+        let v = self.servers[si].view();
+        check!(
+            "C26",
+            "c26-keyset-changed-by-restart",
+            v.n_keys == self.servers[si].live.len() && v.primary as usize == v.n_keys - 1 && v.id_offset.wrapping_add(v.primary) == self.servers[si].epoch as u32,
+            "server {si} after store/load: {} keys primary {} offset {}, model keys {:?}",
+            v.n_keys,
+            v.primary,
+            v.id_offset,
+            self.servers[si].live
+        );
+        self.ledger_sweep(si, "after restart");
     }
 
     /// C26: every byte modification within the cookie's length fails to decode
@@ -424,7 +470,8 @@ impl World {
                 }
                 _ => {
                     l.placeholders /= 2;
-                    l.enc_placeholders = 0;
+                    l.enc.clear();
+                    l.placeholder_abs = l.placeholder_abs.map(|n| n.min(64));
                     l.extra_auth_after = 0;
                     l.extra_auth_before = 0;
                     l.trailing_untrusted = 0;
@@ -644,28 +691,34 @@ impl World {
                     CookieTruth::Issued { keys, .. } => keys.clone(),
                     _ => self.sess[sess].keys.clone(),
                 };
-                let cookie_ok = match &rec.cookie {
-                    CookieTruth::Issued { server, epoch, keys } => *server == si && self.servers[si].model_valid(*epoch) && rec.built.auth_key.as_deref() == Some(&keys.c2s[..]),
+                let cookie_state = match &rec.cookie {
+                    CookieTruth::Issued { server, epoch, .. } if *server == si => self.servers[si].model_state(*epoch),
+                    _ => CookieState::Invalid,
+                };
+                let rest_ok = match &rec.cookie {
+                    CookieTruth::Issued { keys, .. } => rec.built.auth_key.as_deref() == Some(&keys.c2s[..]) && rec.built.cookies_before_auth == 1,
                     _ => false,
                 };
-                let base_authentic = cookie_ok && rec.built.cookies_before_auth == 1;
+                let base_authentic = cookie_state == CookieState::Valid && rest_ok;
+                // a lingering key (see CookieState::Either) leaves the outcome open
+                let base_open = cookie_state == CookieState::Either && rest_ok;
                 let map = RegionMap::of(&rec.built.bytes);
                 let has_auth = map.auth.is_some();
                 // (must_fail, crisp): crisp = the authenticator is certainly still visible to the server
                 let (authentic, must_fail, crisp) = match &d.mutation {
-                    None => (base_authentic, !base_authentic, has_auth),
+                    None => (base_authentic, !base_authentic && !base_open, has_auth),
                     Some(Mutation::BitFlip { pos, .. }) | Some(Mutation::ByteSet { pos, .. }) => {
                         let region = map.region(*pos);
                         if region.protected() {
                             (false, true, has_auth && region.framing_intact())
                         } else {
-                            (false, !base_authentic, has_auth && region == Region::After)
+                            (false, !base_authentic && !base_open, has_auth && region == Region::After)
                         }
                     }
-                    Some(Mutation::Truncate { .. }) | Some(Mutation::Extend { .. }) => (false, !base_authentic, false),
+                    Some(Mutation::Truncate { .. }) | Some(Mutation::Extend { .. }) => (false, !base_authentic && !base_open, false),
                 };
                 if let CookieTruth::Issued { server, epoch, .. } = &rec.cookie {
-                    if *server == si && !self.servers[si].model_valid(*epoch) {
+                    if *server == si && self.servers[si].model_state(*epoch) == CookieState::Invalid {
                         probe("c19-expired-cookie-delivered");
                     }
                 }
@@ -782,6 +835,12 @@ impl World {
                             }
                         }
                         resp_rec.authentic_time = true;
+                    }
+                }
+                if let (true, Some(r)) = (authentic, resp.as_ref()) {
+                    if r.len() > msg.len() {
+                        // amplification is C16 (world w1s); only recorded here
+                        probe("c19-answer-longer-than-request");
                     }
                 }
                 if authentic && resp.is_none() && policy == Policy::Allow {
@@ -978,6 +1037,46 @@ impl World {
 
     // ---------------------------------------------------------------- adversary
 
+    /// C23: a hostile datagram straight into `NtpPacket::deserialize` in all three key contexts
+    /// (no keys, the session's s2c key, the home server's cookie keys) - the decoder must return.
+    fn gauntlet(&mut self, bytes: &[u8], c: usize) {
+        let keys = self.sess[c].keys.clone();
+        let ks = self.servers[self.sess[c].home].keyset();
+        let cipher = fk::cipher_from(keys.alg, &keys.s2c).expect("cipher");
+        let results = [
+            ("c23-panic-no-keys", simkit::exec::catch(|| NtpPacket::deserialize(bytes, &NoCipher).is_ok())),
+            ("c23-panic-session-keys", simkit::exec::catch(|| NtpPacket::deserialize(bytes, cipher.as_ref()).is_ok())),
+            ("c23-panic-server-keys", simkit::exec::catch(|| NtpPacket::deserialize(bytes, ks.as_ref()).is_ok())),
+        ];
+        probe("c23-direct-decoder");
+        for (clause, r) in results {
+            simkit::oracle("C23");
+            match r {
+                Ok(true) => probe("c23-direct-decoder-accepts"),
+                Ok(false) => {}
+                Err(m) => simkit::violation("C23", clause, format!("direct decoder, {} bytes, first 64: {:02x?}: {m}", bytes.len(), &bytes[..bytes.len().min(64)])),
+            }
+        }
+    }
+
+    /// a burst of hostile layouts for the decoder (no node involved)
+    fn gauntlet_burst(&mut self, n: u64) {
+        for _ in 0..n {
+            let c = choose("adv.sess", self.sess.len() as u64) as usize;
+            let to_server = choose("adv.dir", 2) == 0;
+            let cookie = self.sess[c].bag.last().map(|r| r.bytes.clone()).or_else(|| self.ledger.iter().flatten().next().map(|r| r.bytes.clone()));
+            let bytes = if choose("adv.burst_kind", 3) != 2 {
+                adv::forge_inner(&mut SimPick, to_server, cookie.as_deref())
+            } else {
+                let keys = self.sess[c].keys.clone();
+                let keyed = chance("adv.keyed", 0.5);
+                adv::forge(&mut SimPick, to_server, if keyed { Some(&keys) } else { None }, cookie.as_deref())
+            };
+            fault("adv-decoder-burst");
+            self.gauntlet(&bytes, c);
+        }
+    }
+
     fn adversary_tick(&mut self, now: u64) {
         let ns = self.servers.len() as u64;
         match choose("adv.action", 6) {
@@ -988,7 +1087,12 @@ impl World {
                 let c = choose("adv.sess", self.sess.len() as u64) as usize;
                 let keys = self.sess[c].keys.clone();
                 let cookie = self.sess[c].bag.last().map(|r| r.bytes.clone());
-                let bytes = adv::forge(&mut SimPick, true, if keyed { Some(&keys) } else { None }, cookie.as_deref());
+                let bytes = if chance("adv.inner", 0.4) {
+                    adv::forge_inner(&mut SimPick, true, cookie.as_deref())
+                } else {
+                    adv::forge(&mut SimPick, true, if keyed { Some(&keys) } else { None }, cookie.as_deref())
+                };
+                self.gauntlet(&bytes, c);
                 fault("adv-forge-to-server");
                 self.net.send(now, ADV_NODE, srv_node(si), bytes, Meta::Forged { sess: if keyed || chance("adv.spoof", 0.5) { Some(c) } else { None }, keyed });
             }
@@ -997,7 +1101,12 @@ impl World {
                 let c = choose("adv.sess", self.sess.len() as u64) as usize;
                 let keyed = chance("adv.keyed", 0.5);
                 let keys = self.sess[c].keys.clone();
-                let mut bytes = adv::forge(&mut SimPick, false, if keyed { Some(&keys) } else { None }, None);
+                let mut bytes = if chance("adv.inner", 0.4) {
+                    adv::forge_inner(&mut SimPick, false, None)
+                } else {
+                    adv::forge(&mut SimPick, false, if keyed { Some(&keys) } else { None }, None)
+                };
+                self.gauntlet(&bytes, c);
                 if let Some(p) = &self.sess[c].pending {
                     if bytes.len() >= 48 && chance("adv.copy_origin", 0.7) {
                         bytes[24..32].copy_from_slice(&p.origin);
@@ -1212,6 +1321,8 @@ async fn run_async() {
     }
     if adversary {
         w.at(1_500_000_000, Ev::Adversary);
+        let n = if focus == "C23" { 12 + choose("adv.burst", 20) } else { 3 };
+        w.gauntlet_burst(n);
     }
 
     let start = simkit::exec::start_instant();
@@ -1254,12 +1365,17 @@ async fn run_async() {
             match e {
                 Ev::Rotate(si) => {
                     w.rotate(si);
+                    if w.faults && w.servers[si].restarts < 3 && chance("restart", 0.15) {
+                        let p = w.rot_period_ns[si];
+                        w.at(now + p / 4, Ev::Restart(si));
+                    }
                     if work_left && w.servers[si].epoch < 40 {
                         let p = w.rot_period_ns[si];
                         let jitter = choose("rot.jitter", 4) * p / 8;
                         w.at(now + p / 2 + jitter, Ev::Rotate(si));
                     }
                 }
+                Ev::Restart(si) => w.restart(si),
                 Ev::Poll(c) => {
                     match w.sess[c].kind {
                         Kind::Hand => {
@@ -1304,14 +1420,6 @@ async fn run_async() {
     }
     // end of run: one last ledger check against every server's final key set
     for si in 0..w.servers.len() {
-        let ks = w.servers[si].keyset();
-        for rec in w.ledger[si].iter() {
-            let got = fk::decode_cookie(&ks, &rec.bytes);
-            if w.servers[si].model_valid(rec.epoch) {
-                check!("C26", "c26-valid-cookie-does-not-decode", got.as_ref() == Some(&rec.keys), "final: server {si} epoch {} cookie of epoch {} does not decode to its keys", w.servers[si].epoch, rec.epoch);
-            } else {
-                check!("C26", "c26-expired-cookie-decodes", got.is_none(), "final: server {si} epoch {} history {} cookie of epoch {} still decodes", w.servers[si].epoch, w.servers[si].history, rec.epoch);
-            }
-        }
+        w.ledger_sweep(si, "final");
     }
 }
